@@ -4,7 +4,8 @@ transaction boundary of the packed file, _check_sanity takes 8 bytes of pickle d
 length, reads a "header" from the middle of a record and raises (UnicodeDecodeError from
 TxnHeaderFromString; CorruptedDataError / ValueError('Non-zero version length') in other layouts) out of
 FileStorage.__init__: the database cannot be opened at all until the .index is deleted.
-Exits 1 while the defect is present."""
+Repaired in /repo (6e408fd: _restore_index treats an exception of the sanity check as "ignore the index");
+exits 1 if it is back."""
 import logging, os, shutil, sys, tempfile, time
 from ZODB.FileStorage import FileStorage
 from ZODB.Connection import TransactionMetaData
